@@ -354,3 +354,17 @@ impl ReadCursor {
         }
     }
 }
+
+impl Drop for ReadCursor {
+    fn drop(&mut self) {
+        // The queue is going away, so no handle and no stream is left: free the last
+        // (empty) reader group, which was never retired
+        unsafe {
+            let group = self.readers.load(Ordering::Relaxed);
+            if !group.is_null() {
+                ptr::read(group);
+                alloc::deallocate(group, 1);
+            }
+        }
+    }
+}
